@@ -96,7 +96,7 @@ def scenarios(run):
         scn = rng.choice(["select", "insert", "stream"])
         if scn == "select":
             c = Q.cfg("select", rng.choice(Q.SELECT_OK + Q.SELECT_EXC + Q.SELECT_FAULT), present=rng.choice([Q.ALL_CBS, [], ["result"]]),
-                      rfail=rng.choice([0, 0, 0, 1, 2, 3]), ext=rng.random() < 0.2)
+                      rfail=rng.choice([0, 0, 0, 1, 2, 3]), ext=Q.rand_ext(rng, 0.2))
         else:
             c = Q.cfg(scn, rng.choice(Q.INSERT_OK + Q.INSERT_EXC + Q.INSERT_FAULT), plan=rng.choice(Q.PLANS_OK + Q.PLANS_ERR),
                       init_rows=rng.choice([0, 1]) if scn == "stream" else 1, need_info=(rng.random() < 0.8))
